@@ -233,8 +233,8 @@ NumGt(a, b) == NumLess(b, a)
 NumGe(a, b) == ~NumLess(a, b)
 
 \* eqv? on the domain where R7RS fixes it (numbers, booleans, characters, symbols, (), vectors)
-EqvDefined(a, b) == \A v \in {a, b} : v.t \in {"int", "rat", "bool", "char", "sym", "nil", "vec", "unspec"}
-                    \/ a.t # b.t /\ ~(IsExact(a) /\ IsExact(b))
+EqvDefined(a, b) == \/ \A v \in {a, b} : v.t \in {"int", "rat", "bool", "char", "sym", "nil", "vec", "unspec"}
+                    \/ (a.t # b.t /\ ~(IsExact(a) /\ IsExact(b)))
 Eqv(a, b) == IF IsExact(a) /\ IsExact(b) THEN NumEq(a, b) ELSE a = b
 RECURSIVE Equal(_, _)
 Equal(a, b) == IF a.t = "pair" /\ b.t = "pair" THEN Equal(a.a, b.a) /\ Equal(a.d, b.d)
@@ -275,7 +275,7 @@ PurePrim(n, a) ==
   CASE n \in {"+", "*", "-", "/", "=", "<", ">", "<=", ">=", "abs", "min", "max", "floor", "ceiling",
               "floor-quotient", "floor-remainder"} ->
          IF ~AllNumbers(a) THEN Err("WrongType")
-         ELSE CASE n = "+" -> Ok(FoldNum(NumAdd, MkInt(0), a, 1))
+         ELSE (CASE n = "+" -> Ok(FoldNum(NumAdd, MkInt(0), a, 1))
                 [] n = "*" -> Ok(FoldNum(NumMul, MkInt(1), a, 1))
                 [] n = "-" -> IF Len(a) = 1 THEN Ok(NumNeg(a[1])) ELSE Ok(FoldNum(NumSub, a[1], a, 2))
                 [] n = "/" -> IF \E i \in DOMAIN a : (i > 1 \/ Len(a) = 1) /\ NumIsZero(a[i]) THEN Err("DivByZero")
@@ -291,7 +291,7 @@ PurePrim(n, a) ==
                 [] n = "floor" -> Ok(NumFloor(a[1]))
                 [] n = "ceiling" -> Ok(NumCeiling(a[1]))
                 [] n = "floor-quotient" -> IF NumIsZero(a[2]) THEN Err("DivByZero") ELSE Ok(NumFloorQuo(a[1], a[2]))
-                [] n = "floor-remainder" -> IF NumIsZero(a[2]) THEN Err("DivByZero") ELSE Ok(NumFloorRem(a[1], a[2]))
+                [] n = "floor-remainder" -> IF NumIsZero(a[2]) THEN Err("DivByZero") ELSE Ok(NumFloorRem(a[1], a[2])))
     [] n = "not" -> Ok(MkBool(~Truthy(a[1])))
     [] n \in {"eq?", "eqv?"} -> IF EqvDefined(a[1], a[2]) THEN Ok(MkBool(Eqv(a[1], a[2]))) ELSE Ok(Unspec)
     [] n = "equal?" -> Ok(MkBool(Equal(a[1], a[2])))
